@@ -54,12 +54,21 @@ def parseTable (s : String) : List (String × String) :=
     | [f, c] => some (f, c)
     | _ => none
 
+/-- `cons=<n>`, n > 1: the provider was drained by n concurrent consumers; which consumer got which entry is up to the
+scheduler, so the harness prints the MULTISET of delivered requests (sorted bytewise) and both the model's
+prediction and the Spec's expectation are sorted the same way (every request text is ASCII) -/
+def isConc (kv : List (String × String)) : Bool := ((getN? kv "cons").getD 1) > 1
+
+def sortStrs (l : List String) : List String := (l.toArray.qsort (· < ·)).toList
+
+def canonOrder (conc : Bool) (l : List String) : List String := if conc then sortStrs l else l
+
 /-- model observation of a list of decoded ammo: `none` when some URL is outside the modelled class -/
-def ammoObs (res : List Ammo × Stop) : Option String :=
-  (modelObs res).map fun o => obsLine o.1 o.2
+def ammoObs (conc : Bool) (res : List Ammo × Stop) : Option String :=
+  (modelObs res).map fun o => obsLine o.1 (canonOrder conc o.2)
 
 /-- raw: requests are delivered until the first frame that `http.ReadRequest` rejects (Acquire returns false) -/
-def rawObs (cfg : Hdrs) (tbl : List (String × String)) (res : List RawAmmo × Stop) : Option String := do
+def rawObs (conc : Bool) (cfg : Hdrs) (tbl : List (String × String)) (res : List RawAmmo × Stop) : Option String := do
   let rec go : List RawAmmo → List String → Option (List String × Bool)
     | [], acc => some (acc.reverse, false)
     | a :: r, acc =>
@@ -68,7 +77,7 @@ def rawObs (cfg : Hdrs) (tbl : List (String × String)) (res : List RawAmmo × S
       | some "!" => some (acc.reverse, true)
       | some c => go r ((enrichCanon cfg c ++ ",t=" ++ hex a.tag) :: acc)
   let (reqs, buildErr) ← go res.1 []
-  pure (obsLine (if buildErr then "build" else stopName res.2) reqs)
+  pure (obsLine (if buildErr then "build" else stopName res.2) (canonOrder conc reqs))
 
 def parseObs (impl : String) : Option (String × List String) :=
   let kv := parseKV impl
@@ -105,6 +114,7 @@ def cfgOf (kv : List (String × String)) : Option (Except String Hdrs) :=
 def handleFileCfg (f : Fmt) (cfg : Hdrs) (kv : List (String × String)) (impl : String) : String × String :=
   let k := (getN? kv "k").getD 1
   let pre := getS kv "pre" == "1"
+  let conc := isConc kv
   match hexB (getS kv "file") with
   | none => ("-", "fail:driver:bad file hex")
   | some file =>
@@ -114,9 +124,9 @@ def handleFileCfg (f : Fmt) (cfg : Hdrs) (kv : List (String × String)) (impl : 
     let known (pass : List Ammo × Stop) : Bool := !pre || pass.1.all fun a => (parseURL a.url).isSome
     let mobs : Option String :=
       match f with
-      | .uri => if known (uriPass file []) then ammoObs (withCfgRes cfg (uriDeliver file k pre)) else none
-      | .uripost => if known (uripostPass true file []) then ammoObs (withCfgRes cfg (uripostDeliver true file k pre)) else none
-      | .raw => rawObs cfg tbl (rawDeliver file k pre)  -- the table is the library's part (http.ReadRequest); the `headers` option is applied here
+      | .uri => if known (uriPass file []) then ammoObs conc (withCfgRes cfg (uriDeliver file k pre)) else none
+      | .uripost => if known (uripostPass true file []) then ammoObs conc (withCfgRes cfg (uripostDeliver true file k pre)) else none
+      | .raw => rawObs conc cfg tbl (rawDeliver file k pre)  -- the table is the library's part (http.ReadRequest); the `headers` option is applied here
     let m := mobs.getD "*"
     match lookup kv "items" with
     | none => (m, if mobs.isSome then "skip:malformed" else "skip:outside-model")
@@ -137,10 +147,10 @@ def handleFileCfg (f : Fmt) (cfg : Hdrs) (kv : List (String × String)) (impl : 
               | none => none
             match strs with
             | none => (m, "skip:frame-not-a-request")
-            | some pass => (m, judge (expected pass k) (expectedErr pass) ireqs ierr)
+            | some pass => (m, judge (canonOrder conc (expected pass k)) (expectedErr pass) ireqs ierr)
           | _ =>
             let pass := (expReqs f cfg [] items).map reqStr
-            (m, judge (expected pass k) (expectedErr pass) ireqs ierr)
+            (m, judge (canonOrder conc (expected pass k)) (expectedErr pass) ireqs ierr)
       | _, _, none => (m, s!"fail:crash:unparsable observation {impl.take 80}")
       | _, _, _ => (m, "fail:driver:unparsable items/layout")
 
@@ -153,13 +163,14 @@ def handleFile (f : Fmt) (kv : List (String × String)) (impl : String) : String
 def handleJsonCfg (cfg : Hdrs) (kv : List (String × String)) (impl : String) : String × String :=
   let k := (getN? kv "k").getD 1
   let pre := getS kv "pre" == "1"
+  let conc := isConc kv
   match (splitList (getS kv "ents") ";").mapM parseEntity, parseObs impl with
   | some ents, some (ierr, ireqs) =>
-    let m := (ammoObs (withCfgRes cfg (jsonDeliver (getS kv "mode" == "array") ents k pre))).getD "*"
+    let m := (ammoObs conc (withCfgRes cfg (jsonDeliver (getS kv "mode" == "array") ents k pre))).getD "*"
     if !ents.all entityKnown then (m, "skip:outside-model")
     else
       let pass := ents.map fun e => reqStr (entityReq cfg e.host e.method e.uri e.tag e.body e.headers)
-      (m, judge (expected pass k) (expectedErr pass) ireqs ierr)
+      (m, judge (canonOrder conc (expected pass k)) (expectedErr pass) ireqs ierr)
   | none, _ => ("-", "fail:driver:unparsable entities")
   | _, none => ("-", s!"fail:crash:unparsable observation {impl.take 80}")
 
@@ -169,7 +180,7 @@ def handleJson (kv : List (String × String)) (impl : String) : String × String
   | some (.error obs) => (obs, "skip:bad-headers-option")
   | some (.ok cfg) => handleJsonCfg cfg kv impl
 
-def handle : Handler := fun input impl =>
+def handleCase (input impl : String) : String × String :=
   let kv := parseKV input
   match getS kv "fmt" with
   | "json" => handleJson kv impl
@@ -177,5 +188,15 @@ def handle : Handler := fun input impl =>
     match parseFmt fs with
     | some f => handleFile f kv impl
     | none => ("-", "fail:driver:unknown format")
+
+/-- A provider that ends the process (`FATAL …`: the Go runtime's unrecoverable faults, e.g. a header map written by the
+decoder goroutine while `BuildRequest` reads it), panics or hangs delivers nothing of what the file holds, whatever the
+kind of case: the Spec fails on that observation (the harness runs every case in a child process, so the fault is
+attributed to the input that provoked it). -/
+def handle : Handler := fun input impl =>
+  let r := handleCase input impl
+  if impl.startsWith "FATAL" || impl.startsWith "PANIC" then (r.1, s!"fail:crash:{impl.take 160}")
+  else if impl.startsWith "HANG" then (r.1, "fail:hang:no answer from the provider within the case timeout")
+  else r
 
 end Pandora.Drv.C07
